@@ -12,20 +12,21 @@ TECHNIQUE = ("Coq proofs (induction over the live iteration of the message store
              "coq/Sess (handle_resend_request / retrans_callback scenarios #1..#8, send_process) + oracle c18_ok applied to "
              "the traces of the REAL Session/Connection/Persister code (in-memory socket, virtual clock); model traces tied "
              "byte for byte")
-LEVEL_TEXT = ("For every schema, decoder, store, range and session state with always_seqnum_assign off the modelled answer to a "
-              "ResendRequest is proved equal to an explicit replay plan (c18_replay_plan, induction over the live store "
-              "iteration); from it: the resent messages are exactly the stored ones in the range, ascending, each the stored "
-              "message + PossDupFlag=Y + OrigSendingTime = stored SendingTime (c18_resent_partial); gap fills of scenarios "
-              "#2/#3 carry the CURRENT next_send as MsgSeqNum (c18_gapfill_seq_general + witness c18_gapfill_seq_refuted, "
-              "F22); a bounded request ends with a gap fill up to next_send that skips stored messages beyond End "
-              "(c18_overreach_refuted); without a persister the single gap fill is as specified (c18_nopersister); next_send "
-              "afterwards = the NewSeqNo of the last gap fill (c18_continue); invalid ranges get one Reject "
-              "(c18_reject_invalid); with both defect patterns excluded the emitted BYTES satisfy the oracle answer_ok "
-              "(c18_answer_ok_partial); hypotheses satisfiable (c18_nonvacuous, c18_nonvacuous_oracle).")
+LEVEL_TEXT = ("For every schema, decoder, store, range and session state other than resend_request_received, with "
+              "always_seqnum_assign off, the modelled answer to a ResendRequest is proved equal to an explicit replay plan "
+              "(c18_replay_plan, c18_replay_plan_any_state, c18_replay_plan_ahead; induction over the live store iteration); from "
+              "it: the resent messages are exactly the stored ones in the range, ascending, each the stored message + "
+              "PossDupFlag=Y + OrigSendingTime = stored SendingTime (c18_resent_partial); every gap fill inside the replay carries "
+              "MsgSeqNum = first number of its gap and NewSeqNo = the next stored number (c18_gapfill_exact; F22 repaired by "
+              "930506b, the old callback refuted in c18_gapfill_seq_orig_refuted); a bounded request still ends with a gap fill "
+              "up to next_send that skips stored messages beyond End (c18_overreach_refuted); without a persister the single gap "
+              "fill is as specified (c18_nopersister); next_send afterwards = the NewSeqNo of the last gap fill (c18_continue); "
+              "invalid ranges get one Reject (c18_reject_invalid); for all stores and ranges with nothing stored beyond End the "
+              "emitted BYTES satisfy the oracle answer_ok (c18_answer_ok_partial); hypotheses satisfiable (c18_nonvacuous*).")
 LEVEL_NOTE = ("Trusted: Coq kernel, extraction, the hand transcription coq/Sess of session.cpp/persist.cpp (checked by the "
               "correspondence run on every case: the model's trace must equal the real trace byte for byte), the harness "
               "(vsock/vclock), the stand-in decoder simple_decode on well-formed stored messages.")
-DESIGN_REF = "DESIGN.md section 4, C18; findings F22, F23"
+DESIGN_REF = "DESIGN.md section 4, C18; findings F22 (fixed by 930506b), F23"
 PROPS_FILE = "Props/Properties_C18.v"
 COQ_TARGETS = ["Props/Properties_C18.vo", "Extract/Extract_C18.vo"]
 TRUSTED_BASE = ["Coq 8.16.1 kernel (coqc), vm_compute only",
@@ -274,8 +275,8 @@ def _valid(b, e):
 
 
 def gap_before_stored(c, impl, model):
-    """Negation of hypothesis `no_gap_before_stored` of c18_answer_partial: the iterated range [B, finish]
-    contains a number without a stored message that is followed by a stored one (scenarios #2/#3)."""
+    """The pattern of F22 (fixed by /repo 930506b; the entry is status "fixed" and suppresses nothing): the iterated
+    range [B, finish] contains a number without a stored message that is followed by a stored one (scenarios #2/#3)."""
     p = _parse(c.line, impl)
     if not p or p[1]:
         return False
@@ -301,7 +302,9 @@ def stored_beyond_end(c, impl, model):
     return False
 
 
-CLASSIFIERS = {"gap_before_stored": gap_before_stored, "stored_beyond_end": stored_beyond_end}
+# "f22_pattern" belongs to the FIXED entry C18-gapfill-msgseqnum (a fixed entry suppresses nothing); the old key
+# "gap_before_stored" is deliberately gone so that a stale "known" copy of that entry cannot mask a regression
+CLASSIFIERS = {"f22_pattern": gap_before_stored, "stored_beyond_end": stored_beyond_end}
 
 
 def nontrivial(case, impl_out):
